@@ -8,10 +8,15 @@ pub mod c03;
 pub mod c04;
 pub mod c05;
 pub mod c06;
+pub mod c07;
 pub mod c08;
 pub mod cmp31;
 pub mod c09;
 pub mod c10;
+pub mod c11;
+pub mod c12;
+pub mod c13;
+pub mod c14;
 
 pub type Runner = fn(&mut Ctx);
 
@@ -23,9 +28,14 @@ pub fn lookup(prop: &str) -> Option<Runner> {
         "C04" => c04::run,
         "C05" => c05::run,
         "C06" => c06::run,
+        "C07" => c07::run,
         "C08" => c08::run,
         "C09" => c09::run,
         "C10" => c10::run,
+        "C11" => c11::run,
+        "C12" => c12::run,
+        "C13" => c13::run,
+        "C14" => c14::run,
         _ => return None,
     })
 }
